@@ -29,9 +29,20 @@ pub fn parse_schema(ty: &Ty) -> Result<Schema, String> {
 			))),
 			SchemaNode::new(RegularType::Int),
 		]);
-		let _ = dangling.canonical_form_rabin_fingerprint();
-		let _ = dangling.freeze();
-		if h % 8 == 0 {
+		// (ONE refused operation, or two: a second walk over the same graph may well put right what the first left behind)
+		match (h / 4) % 3 {
+			0 => {
+				let _ = dangling.canonical_form_rabin_fingerprint();
+			}
+			1 => {
+				let _ = dangling.freeze();
+			}
+			_ => {
+				let _ = dangling.canonical_form_rabin_fingerprint();
+				let _ = dangling.freeze();
+			}
+		}
+		if h % 32 == 0 {
 			let other = SchemaMut::from_nodes(vec![
 				SchemaNode::new(RegularType::Record(Record::new(Name::from_fully_qualified_name("a.N0"), vec![RecordField::new("f0", SchemaKey::from_idx(1))]))),
 				SchemaNode::new(RegularType::String),
